@@ -5,6 +5,7 @@ import (
 	"go/constant"
 	"go/token"
 	"go/types"
+	"regexp"
 	"sort"
 	"strings"
 
@@ -71,6 +72,7 @@ type GuardSpec struct {
 	Success    *successSpec
 	NoInline   []string
 	Through    ssa.Instruction // only exits reachable from this instruction of the function count
+	ThroughBin bool            // restrict to exits reachable from the (single) matched BinAssume comparison
 	// AllowNoSuccessBaseline: do not require that the function can succeed without assumptions
 	Depth int
 }
@@ -111,6 +113,15 @@ func (c *Ctx) guard(p *Program, rule, what string, f *ssa.Function, g GuardSpec)
 			}
 		}
 		return q
+	}
+	if g.ThroughBin && g.Through == nil && len(g.BinAssumes) == 1 {
+		for _, b := range f.Blocks {
+			for _, in := range b.Instrs {
+				if bo, ok := in.(*ssa.BinOp); ok && g.BinAssumes[0].Match(bo, f) {
+					g.Through = bo
+				}
+			}
+		}
 	}
 	qb := mk(false)
 	if len(g.Assumes)+len(g.BinAssumes)+len(g.ValAssumes) > 0 && len(g.Args) > 0 {
@@ -687,4 +698,18 @@ func firstPos(b *ssa.BasicBlock) token.Pos {
 		}
 	}
 	return token.NoPos
+}
+
+func sprintf(format string, a ...interface{}) string { return fmt.Sprintf(format, a...) }
+
+// binDesc builds a BinAssume matching comparisons in fn whose rendering "<desc X> <op> <desc Y>"
+// matches the regular expression.
+func binDesc(fn *ssa.Function, name, re string, val lat) BinAssume {
+	rx := regexp.MustCompile("^(?:" + re + ")$")
+	return BinAssume{Name: name, Val: val, Match: func(b *ssa.BinOp, in *ssa.Function) bool {
+		if in != fn || !isCmp(b.Op) {
+			return false
+		}
+		return rx.MatchString(descVal(b.X) + " " + b.Op.String() + " " + descVal(b.Y))
+	}}
 }
